@@ -2,3 +2,4 @@ pub mod slotmap;
 pub mod slot;
 pub mod shape;
 pub mod parse;
+pub mod group;
